@@ -1,5 +1,6 @@
 (* C14 — At most one firing per occurrence of the underlying trigger (statements only). *)
-From EAS Require Import Base Civil Time Filters Replace Producers ProdStrict ProdOps.
+From EAS Require Import Base Civil Time TimeOrder Filters Replace Producers ProdStrict ProdEarliest ProdEarliest2 ProdOps ProdOps2.
+From EASGen Require Import Generated.
 
 (* offset, any sign: two consecutive firings of the chain belong to strictly increasing occurrences *)
 Theorem C14_offset_chain_injective :
@@ -19,3 +20,86 @@ Theorem C14_jitter_nonneg_chain_injective :
                   n1 + lo <= v1 <= n1 + hi /\ n2 + lo <= v2 <= n2 + hi /\ n1 < n2.
 Proof. exact jitter_nonneg_chain_injective. Qed.
 Print Assumptions C14_jitter_nonneg_chain_injective.
+(* ---- additions from ProdOps2.v (add ProdEarliest ProdEarliest2 ProdOps2 to the Require line) ---- *)
+
+(* offset chains are COMPLETE and repetition-free: the chain enumerates the shifted occurrences of the underlying
+   trigger (every element is the earliest shifted occurrence after its predecessor: ProdEarliest2.enumerates,
+   enumerates_complete / enumerates_sorted).  Hyp. 1: offset smaller than the distance between consecutive
+   occurrences; hyp. 2: no occurrence in (d - off, d] at the start; both vacuous for off < 0 *)
+Theorem C14_offset_chain_complete :
+  forall E q (P : Z -> Prop),
+    (forall st x n st', get_next E q st x = (Ok n, st') -> earliest_after P x n) ->
+    forall off, (forall n u, P n -> P u -> n < u -> n + off < u) ->
+    forall k st d, (forall u, P u -> d - off < u -> d < u) ->
+      enumerates (shifted P off) d (chain E (POffset q off None) st d k).
+Proof. exact offset_chain_complete. Qed.
+Print Assumptions C14_offset_chain_complete.
+
+Theorem C14_offset_chain_complete_neg :
+  forall E q (P : Z -> Prop),
+    (forall st x n st', get_next E q st x = (Ok n, st') -> earliest_after P x n) ->
+    forall off, off < 0 -> forall k st d, enumerates (shifted P off) d (chain E (POffset q off None) st d k).
+Proof. exact offset_chain_complete_neg. Qed.
+Print Assumptions C14_offset_chain_complete_neg.
+
+(* instance: time-of-day trigger, any DST policy, any filter, any table with spread <= 4 h *)
+Theorem C14_offset_time_chain_complete :
+  forall E tr f off, wf_tz_b (pz E) = true -> wf_tr tr ->
+    (forall n u, occ_time (pz E) tr f n -> occ_time (pz E) tr f u -> n < u -> n + off < u) ->
+    forall k st d, (forall u, occ_time (pz E) tr f u -> d - off < u -> d < u) ->
+      enumerates (fun v => occ_time (pz E) tr f (v - off)) d (chain E (POffset (PTime tr f) off None) st d k).
+Proof. exact offset_time_chain_complete. Qed.
+Print Assumptions C14_offset_time_chain_complete.
+
+Theorem C14_offset_time_chain_complete_neg :
+  forall E tr f off, wf_tz_b (pz E) = true -> wf_tr tr -> off < 0 ->
+    forall k st d,
+      enumerates (fun v => occ_time (pz E) tr f (v - off)) d (chain E (POffset (PTime tr f) off None) st d k).
+Proof. exact offset_time_chain_complete_neg. Qed.
+Print Assumptions C14_offset_time_chain_complete_neg.
+
+(* total version: daily trigger, zone without transitions, any offset of less than a day, either sign: the next
+   firing EXISTS and is the firing of the following day *)
+Theorem C14_daily_offset_every_day :
+  forall E tr off st y, tz_trans (pz E) = [] -> wf_tr tr -> - DAY < off < DAY ->
+    let n1 := daily_nx E tr y in
+    get_next E (POffset (PTime tr None) off None) st (n1 + off) = (Ok (n1 + DAY + off), st).
+Proof. exact daily_offset_every_day. Qed.
+Print Assumptions C14_daily_offset_every_day.
+
+(* why the restriction to offsets narrower than the period: an occurrence n2 in (n1, n1 + off] is skipped *)
+Theorem C14_offset_wide_skips :
+  forall E q (P : Z -> Prop),
+    (forall st x n st', get_next E q st x = (Ok n, st') -> earliest_after P x n) ->
+    forall off st n1 n2 v st', n1 < n2 -> n2 <= n1 + off ->
+      get_next E (POffset q off None) st (n1 + off) = (Ok v, st') -> n2 + off < v.
+Proof. exact offset_wide_skips. Qed.
+Print Assumptions C14_offset_wide_skips.
+
+(* F6 (known finding): jitter with a negative lower bound - the injectivity statement without 0 <= lo is false *)
+Theorem C14_jitter_negative_refuted :
+  ~ (forall E q lo hi f st1 d0 v1 st2 v2 st3,
+       wf_producer q -> draws_in_range E -> lo < hi ->
+       get_next E (PJitter q lo hi f) st1 d0 = (Ok v1, st2) ->
+       get_next E (PJitter q lo hi f) st2 v1 = (Ok v2, st3) ->
+       exists n1 n2, inner_answer E q d0 n1 /\ inner_answer E q v1 n2 /\
+                     n1 + lo <= v1 <= n1 + hi /\ n2 + lo <= v2 /\ n1 < n2).
+Proof. exact jitter_negative_refuted. Qed.
+Print Assumptions C14_jitter_negative_refuted.
+
+(* the witness: daily 12:00, zone without transitions, jitter(-60 s, 60 s), draws within the requested bounds;
+   chain from midnight: 11:59:16 then 12:00:56.0001, both within 60 s of the same occurrence b = 12:00, which is
+   the only answer of the underlying trigger that either firing can be attributed to *)
+Theorem C14_jitter_negative_witness :
+  let q := PTime noon None in let lo := - 60 * SEC in let hi := 60 * SEC in let b := noon0 in
+  tz_trans (pz envJ) = [] /\ wf_tz_b (pz envJ) = true /\ wf_tr noon /\ draws_in_range envJ /\
+  lo < 0 < hi /\ hi - lo < DAY /\
+  chain envJ (PJitter q lo hi None) pstate0 0 2 = [Ok fire1; Ok fire2] /\
+  get_next envJ (PJitter q lo hi None) pstate0 0 = (Ok fire1, stJ 1) /\
+  get_next envJ (PJitter q lo hi None) (stJ 1) fire1 = (Ok fire2, stJ 2) /\
+  get_next envJ q pstate0 0 = (Ok b, pstate0) /\ get_next envJ q (stJ 1) fire1 = (Ok b, stJ 1) /\
+  b + lo <= fire1 < b /\ b < fire2 <= b + hi /\
+  (forall n, inner_answer envJ q 0 n -> n + lo <= fire1 <= n + hi -> n = b) /\
+  (forall n, inner_answer envJ q fire1 n -> n + lo <= fire2 -> n = b).
+Proof. exact jitter_negative_refuted_concrete. Qed.
+Print Assumptions C14_jitter_negative_witness.
